@@ -304,7 +304,7 @@ PROP = Prop(
           "slices, permutation equivariance, accuracy = trace/pop. Non-trivial = >=3 classes, a "
           "non-identity order/permutation and an off-diagonal entry."),
     clauses=[
-        Clause("from_predictions", check_pred, strategy=_pred_cases(), quick=500, thorough=2500,
+        Clause("from_predictions", check_pred, strategy=_pred_cases(), quick=500, thorough=2500, fuzz=20000,
                quick_shards=2, min_nontrivial=40, doc="entry [i,j] = total weight, class order"),
         Clause("renderings", check_render, strategy=_render_cases(), quick=300, thorough=1500,
                quick_shards=2, min_nontrivial=30, doc="dict / DataFrame / lists give one matrix"),
